@@ -47,6 +47,9 @@ def check(ctx):
     ctx.floor("R12.1", "public entry points analysed", n_eps, 30)
     ctx.floor("R12.1", "sanitiser sites on label sources", n_san, 9)
     ctx.guard(r122, ctx)
+    ctx.guard(r124_order, ctx)
+    from .c13 import r133_merge_test
+    ctx.guard(r133_merge_test, ctx, "R12.3")
 
 
 def label_sinks(ctx, rule, eps):
@@ -84,6 +87,35 @@ def _construct(e, s):
     except Exception:
         txt = s.op
     return f"{s.op}:{txt}"
+
+
+def r124_order(ctx):
+    ctx.rule("R12.4", "values indexed by group label inside a moment (the multipliers, P(g)) are looked up by label, never taken out "
+                      "of their labels and indexed by a positional group code (factorize / unique-inverse order of first appearance "
+                      "differs from the sorted label order): results must not depend on row order or on a bijective renaming of the "
+                      "groups")
+    from .common import label_strips
+    A = Analysis(ctx)
+    n = 0
+    for mod, c in LOAD_DATA:
+        cls = f"{mod}:{c}"
+        fi = ctx.prog.lookup_method(cls, "signed_weights")
+        if fi is None:
+            continue
+        r = A.run(fi.fq, cls_ctx=cls)
+        if r.ret is None:
+            continue
+        n += 1
+        srcs = [t for t in (r.params.get("lambda_vec"), A.entry(r, "self.prob_attr"), A.entry(r, "self.prob_event"),
+                            A.entry(r, "self.prob_group_event")) if t is not None]
+        hits = []
+        for s_ in srcs:
+            hits += label_strips(r.ret, s_)
+        ok = not hits
+        ctx.ob("R12.4", fi.fq, None, ok, f"{c}.signed_weights looks group-indexed values up by label" if ok else
+               f"{c}.signed_weights takes a group-indexed value out of its labels ({show(hits[0], maxdepth=3)[:80]}) and indexes it by "
+               "position: the pairing depends on the order in which groups first appear", construct=f"{c}.signed_weights group lookup")
+    ctx.floor("R12.4", "signed_weights methods", n, 6)
 
 
 def r122(ctx):
